@@ -124,7 +124,7 @@ func runCheck(args []string) int {
 		}
 		lemmaObs = append(lemmaObs, &Obligation{Func: "spec", Kind: "lemma", Name: lm.Name, Props: lm.Props, Where: lm.Descr})
 	}
-	outDir := filepath.Join(*verif, "out", prop)
+	outDir := filepath.Join(*verif, "out", prop+os.Getenv("VERIF_OUT_TAG")) // the tag keeps parallel selftest workers apart
 	os.RemoveAll(outDir)
 	eng.solveAll(outDir, timeout, 16)
 	solveLemmas(eng, lemmaObs, outDir, timeout*2, *tier == "thorough")
